@@ -255,6 +255,7 @@ type ExpMsg struct {
 	// diagnostics
 	UnknownSets int `json:"unknown_sets,omitempty"` // data sets whose template was not known
 	ShortTail   int `json:"short_tail,omitempty"`   // sets ending with a record of <= 4 octets
+	Mismatched  int `json:"mismatched,omitempty"`   // records generated for another definition of the template id
 }
 
 func beUint(b []byte) uint64 {
@@ -392,6 +393,12 @@ func Expect(m *Msg, addr []byte, cache TplCache, im InfoModel, encodedLen int) *
 			}
 			for ri := range s.Recs {
 				r := &s.Recs[ri]
+				if len(r.Vals) != len(specs) {
+					// the record was generated for another definition of this
+					// template id (a re-announcement in flight): no expectation
+					e.Mismatched++
+					continue
+				}
 				var fields []ExpField
 				recLen := 0
 				for i, f := range specs {
